@@ -122,6 +122,17 @@ def writer_transform(ctx, fn, expr):
         for n in ast.walk(e.generators[0].iter):
             if is_self_attr(n, sn):
                 attr = n.attr
+    elif isinstance(expr, ast.Name) and isinstance(e, ast.List) and not e.elts:
+        # name = []; for x in self.attr: name.append(x.to_dict())
+        for n in walk_no_nested(fn.node):
+            if isinstance(n, ast.Call) and isinstance(n.func, ast.Attribute) and n.func.attr == 'append' and isinstance(n.func.value, ast.Name) \
+                    and n.func.value.id == expr.id and n.args and isinstance(n.args[0], ast.Call) and call_name(n.args[0]) == 'to_dict':
+                tag = 'dicts'
+                lp = n._parent._parent
+                if isinstance(lp, ast.For):
+                    for x in ast.walk(lp.iter):
+                        if is_self_attr(x, sn):
+                            attr = x.attr
     elif isinstance(e, ast.Attribute) and e.attr == 'name':
         tag = 'enum-name'
     return tag, attr, elem
